@@ -27,8 +27,10 @@ RULES = {
     "R6": "stacked/averaged helpers: row i <- get_theta(i).<same-named predict>(screen), i in range(n_thetas); mean = sum / n_thetas",
     "R7": "the derived screen attributes this property's code relies on (size, treatment_arity) have their documented definitions in ScreenBase and every override",
     "R8": "the sample container the code indexes (ThetaHolder.add_theta / get_theta) refuses out-of-range indices and returns the i-th added sample (C10.R3 run here)",
+    "R9": "the view algebra predictions on subsets rely on: attribute properties read the parent at the selected rows, subset composes selections, combine / concat are unions (C14.R1, C14.R3 run here)",
+    "R10": "samples come back from a file in the order they were saved (ThetaHolder save/load agreement, C10.R1 run here): the stacked helpers' rows are the collection's samples in order",
 }
-MIN = {"R1": 8, "R2": 3, "R3": 2, "R4": 5, "R5": 4, "R6": 5, "R7": 2, "R8": 3}
+MIN = {"R1": 8, "R2": 3, "R3": 2, "R4": 5, "R5": 4, "R6": 5, "R7": 2, "R8": 3, "R9": 12, "R10": 9}
 TRUSTED = ["numpy: advanced indexing copies; negative index -1 selects the last row (which the helper then zeroes)",
            "expit/clip are element-wise"]
 TECHNIQUE = "freshness analysis over the predict call closure, polynomial normal forms with symmetry/substitution checks"
@@ -474,7 +476,18 @@ def r_holder(ctx):
     ctx.borrow(C10.r3, "R8")
 
 
-RULE_FUNCS = [r1, r2, r3, r4, r5, r6, r_derived, r_holder]
+def r_br9(ctx):
+    from . import C14
+    ctx.borrow(C14.r1, "R9")
+    ctx.borrow(C14.r3, "R9")
+
+
+def r_br10(ctx):
+    from . import C10
+    ctx.borrow(C10.r1, "R10")
+
+
+RULE_FUNCS = [r1, r2, r3, r4, r5, r6, r_derived, r_holder, r_br9, r_br10]
 
 
 def _rep(a, b):
